@@ -531,6 +531,21 @@ def check_ctx_attr(dv, node, root, x, nm, report, stack_vars, fresh):
         return 1
     wanted = {(s, True) for s in stack_vars} | {(f"type({nm}) is _RepeatingGroupContext", True),
                                                  (f"isinstance({nm}, _RepeatingGroupContext)", True)}
+    # without a stack: `nm is not <root message>` says the same, provided nm only ever holds the root message, a fresh group
+    # context or the parent of a context (then "not the root" = "a group context")
+    root_names = {n.targets[0].id for n in walk_no_nested(dv.fn) if isinstance(n, ast.Assign) and len(n.targets) == 1 and isinstance(n.targets[0], ast.Name)
+                  and isinstance(n.value, ast.Call) and unparse(n.value.func) == "FIXMessage"}
+    nm_values = [n.value for n in walk_no_nested(dv.fn) if isinstance(n, ast.Assign) and len(n.targets) == 1 and isinstance(n.targets[0], ast.Name)
+                 and n.targets[0].id == nm]
+    other_stores = sum(1 for n in walk_no_nested(dv.fn) if isinstance(n, ast.Name) and n.id == nm and isinstance(n.ctx, (ast.Store, ast.Del)))
+    closed = other_stores == len(nm_values) and all(
+        (isinstance(v, ast.Name) and (v.id in root_names or v.id in fresh))
+        or (isinstance(v, ast.Call) and unparse(v.func) == "_RepeatingGroupContext")
+        or (isinstance(v, ast.Attribute) and v.attr == "parent" and isinstance(v.value, ast.Name) and (v.value.id == nm or v.value.id in fresh))
+        for v in nm_values)
+    if closed:
+        for r_ in root_names:
+            wanted |= {(f"{nm} is not {r_}", True), (f"{r_} is not {nm}", True)}
     if local_facts(root, x) & wanted:
         return 1
     killers, est_nodes = set(), set()
@@ -814,8 +829,13 @@ def positive_frame_len(dv, r):
     for nm in names:
         for d in dv.rd[r.id].get(nm, set()):
             a = dv.cfg.nodes[d].ast
+            added = None
             if isinstance(a, ast.AugAssign) and isinstance(a.op, ast.Add):
-                for y in ast.walk(a.value):
+                added = a.value
+            elif isinstance(a, ast.Assign) and isinstance(a.value, ast.BinOp) and isinstance(a.value.op, ast.Add):
+                added = a.value  # `x = start + length`, the plain form of `x = start; x += length`
+            if added is not None:
+                for y in ast.walk(added):
                     if isinstance(y, ast.Name):
                         for v in derivation(dv.fn, y.id, 0).get(y.id, []):
                             for z in ast.walk(v):
